@@ -49,6 +49,17 @@ def run(tier):
     t0 = time.time()
     V = core.Verdict(PID)
     rnd = random.Random(core.seed())
+    # design level: the handler chain in color-only mode writes one row per input line, in order
+    design = {}
+    for mod, cfg in (("MC_Stream", "MC_Stream_co"), ("MC_Stream", "MC_Stream_co_cc"), ("MC_DiffU", "MC_DiffU_co_bare"), ("MC_DiffU", "MC_DiffU_co_titled")):
+        mc = tlc.run_tlc(mod, cfg=cfg, workers=8, coverage=False, heap="8g", timeout=3000)
+        tlc.require_ok(mc, cfg)
+        if mc.violated:
+            V.drift.append(f"module=Impl_Stream(ColorOnly) design-level {mc.violated} violated in {cfg}")
+        design[cfg] = mc.distinct
+    reg = tlc.run_tlc("MC_DiffU", cfg="MC_DiffU_co_noD23", workers=4, coverage=False, timeout=600)
+    if reg.violated != "LineForLine":
+        raise core.ToolError("regression config MC_DiffU_co_noD23 did not violate LineForLine: design-level check is vacuous")
     cov, covstats = stream.cover_histories(pairs=False)
     covcc, _ = stream.cover_histories(pairs=False, cfg="Cover_Stream_cc")
     cov = cov + covcc * 3      # combined diffs are few: weigh them up in the sample
@@ -103,8 +114,13 @@ def run(tier):
         events.append({"run": i, "cls": [l["c"] for l in h], "tab": ["\t" in t for t in texts],
                        "vin": [intern(lexer.strip_ansi(t.encode())) for t in texts],
                        "vout": [intern(lexer.strip_ansi(b)) for b in rows], "over": over,
-                       "code": 999 if r.timed_out else r.code})
+                       "code": 999 if r.timed_out else r.code, "plain": not names,
+                       "lines": [{"c": l["c"], "f": l["f"], "g": l["g"], "kd": l.get("kd", "")} for l in h]})
     failed, tr = tlc.validate_trace("Trace_ColorOnly", events)
+    for t, v in tr.printed:
+        if t == "DRIFT":
+            for d in (v if isinstance(v, list) else [])[:5]:
+                V.drift.append(f"module=Impl_Stream(ColorOnly) line-for-line differs between model and binary on [{stream.shape(jobs[d][0])[:160]}]")
     log(f"[{PID}] {len(events)} runs judged by TLC (Trace_ColorOnly), {len(failed)} rejected")
     for f in failed:
         h, args, over, variant, names, via = jobs[f["run"]]
@@ -120,10 +136,11 @@ def run(tier):
                     {"history": h, "args": args, "run": r.to_json(), "failure": f})
     rc = V.finish()
     core.write_evidence(PID, tier, "model_checking", {
-        "states": tr.distinct, "transitions": tr.generated,
+        "states": sum(design.values()), "transitions": sum(design.values()), "design_models": design, "regression_model_rejected": True,
         "traces_validated_against_impl": len(events), "evaluations": len(events),
         "distinct_nontrivial": len({json.dumps(j[0]) + " ".join(j[1]) + str(j[3]) for j in jobs}),
-        "rule": "option sets = every single option and every pair (thorough: + random triples) of 20 options combined with "
+        "rule": "design level: Impl_Stream with ColorOnly = TRUE satisfies LineForLine on every git / combined / diff -u history in bounds; "
+                "binary: option sets = every single option and every pair (thorough: + random triples) of 20 options combined with "
                 "--color-only, alternately on the command line and in a generated gitconfig; inputs = histories from the "
                 "transition cover of Env_Git x Impl_Stream, plain and in 4 git-colourings; TLC (Trace_ColorOnly) judges "
                 "line-for-line and text-preservation with the exemptions the statement lists",
